@@ -308,11 +308,25 @@ pub fn project_of(c: &Case) -> (Project, u64) {
             Project::single(&t)
         }
         Shape::Nesting => {
-            // nesting depth is bounded at 64 by construction (deeper nesting: see DESIGN, recursion is unbounded)
-            let d = 1 + e.below(64);
-            let (open, close) = *e.pick(&[("{ ", " }"), ("lda #(", ")"), (".if 1 { ", " }"), ("q: { ", " }"), (".loop 1 { ", " }"), ("/* ", " */")][..]);
+            // any depth: up to 64 levels are accepted, beyond that the input has to be rejected (not: die of it)
+            let mut d = 1 + e.below(64);
+            let deep = e.chance(1, 3);
+            if deep {
+                d = *e.pick(&[64usize, 65, 66, 100, 128, 129, 300, 500, 1000, 3000, 6000][..]);
+            }
+            let (open, close) = *e.pick(&[("{ ", " }"), ("lda #(", ")"), (".if 1 { ", " }"), ("q: { ", " }"), (".loop 1 { ", " }"), ("/* ", " */"), ("{\n", "}\n"), (".if 0 { nop } else { ", " }"), (".segment \"default\" { ", " }")][..]);
             let mut t = String::new();
-            if open == "lda #(" {
+            if deep && e.chance(1, 3) {
+                // one expression: a long sum, calls in calls, parentheses in a sum in parentheses, a configuration in a configuration
+                let n = d * *e.pick(&[1usize, 1, 10, 40][..]);
+                t = match e.below(5) {
+                    0 => format!(".word {}", vec!["1"; n].join(" + ")),
+                    1 => format!("lda #{}x{}", "defined(".repeat(d), ")".repeat(d)),
+                    2 => format!(".byte {}1{}", "(1 * ".repeat(d), ")".repeat(d)),
+                    3 => format!(".define segment {}1{}", "{ a = ".repeat(d), " }".repeat(d)),
+                    _ => format!(".const k = {}\nlda #{}k{}", vec!["k2"; n.min(20000)].join(" - "), "(".repeat(d.min(60)), ")".repeat(d.min(60))),
+                };
+            } else if open == "lda #(" {
                 t.push_str("lda #");
                 for _ in 0..d {
                     t.push('(');
